@@ -342,7 +342,7 @@ def causes_for(doc: dict, inst: Any, style: str, oracle: str = "valid_rejected")
 
 # where the pinned tree loses the `null` of a type list `["array", "null"]` / `["object", "null"]` (known findings
 # D45 / D45b / D46); every other (kind, position) is accepted and has no cause
-NULL_LOST_EVERYWHERE = [("array", "array_item"), ("array", "map_value"), ("array", "root"), ("object_props", "root")]
+NULL_LOST_EVERYWHERE = [("array", "array_item"), ("array", "map_value"), ("array", "root"), ("array", "union_alt/member_required"), ("object_props", "root")]
 NULL_LOST_WITHOUT_MEMBER_OPTIONAL = [("array", "member"), ("array", "union_alt/member")]
 
 
